@@ -72,6 +72,8 @@ def pool():
         "", "a", "ab", "abc", "abcabc", "a.", "(", ")", "[", "a[b", ".*", "a+", "?", "^a", "a$", "$", "|", "a|b", "\\", "\\d", "\\u{48}", "\\x41",
         "\x00", "\x00z", "a\x00b", "\n", "a\nb", "\t", " ", " 5", "5 ", "-5", "+5", "5", "05", "007", "1_0", "12345678901234567890", "18446744073709551615", "18446744073709551616",
         "٣", "é", "ÿ", "Ā", "€", "\U0001F600", "\U0002FFFF", "a\U0001F600b", "\x7f", "\x80", "{", "}", "u{41}", "\\\\", "'", '"',
+        # every spelling SMT-LIB / z3 may read as an escape, as literal characters
+        "\\u0041", "a\\u00e9b", "\\u{1F600}", "\\u{41", "\\u41", "\\U0041", "\\x{41}", "\\n", "\\u{0}", "\\ud83d\\ude00", "\\\\u0041",
     ]
     return [S(t) for t in texts]
 
